@@ -164,6 +164,8 @@ def spec(prop, tier):
         if q:
             return pair_runs(["P1", "F1", "F3", "V1", "V3"], ["AE", "NP"], tier, 5) + \
                 pair_runs(["P3", "F2", "F4", "V2", "V5", "V7", "M1", "M2", "P8", "P9", "F9", "V12"], ["AE", "NP"], tier, 4) + \
+                pair_runs(["F1", "F3", "V1", "V3"], ["PP"], tier, 4) + \
+                [r for r in pair_runs(["F1", "V1"], ["NP"], tier, 6) if r["arena1"] == 1] + \
                 wide_runs(["F3", "V1", "V3"], tier, mode="pair", depth=4, alloc="NP", arena1=1) + \
                 wide_runs(["F3", "V1", "V3"], tier, mode="pair", depth=4)
         return pair_runs(ALL_LISTS, ["AE", "NP", "PP"], tier, 5, nmax=3)
